@@ -7,6 +7,8 @@ INVARIANT TypeOK
 INVARIANT BuilderWellFormed
 INVARIANT MustImpliesMay
 INVARIANT NothingForeignUnderTest
+INVARIANT ViewsNeverUnderTest
+INVARIANT BaseMembersViaBase
 INVARIANT IgnoredNeverUnderTest
 INVARIANT MonotoneInVisibility
 INVARIANT UnderTestAreGenerators
